@@ -65,3 +65,18 @@ CLAIMED["C12"] = dict(
     text="Decides per path: every stored deadline is satadd(clock sample of the operation, duration returned by the hook/API argument of that path); the hook is chosen by the pre-state (create for absent/expired, update/reload with the live old value, failure hook on failed reloads, read hook once per counted read) and an expired predecessor's value is never passed on; a replacing node inherits the predecessor's deadlines first; only the four known sites write deadlines and only the documented no-op tests may suppress a store; HasExpired (<=) and IsFresh (>) have the same boundary in all 12 variants; SaturatedAdd clamps. Does not decide numeric equality on concrete runs.",
     note=TB + "Assumes calculators are pure w.r.t. the cache.",
     ref="DESIGN.md §4 C12, Appendix B5")
+CLAIMED["C08"] = dict(
+    technique="static analysis: " + PS + " with summarised callees (started => dispatched, wait-before-read, get-or-create, finish), CFG dominance of the deferred recovering finish handler",
+    text="Decides per path: records are created only inside the in-flight table computation when none exists, and removed only by identity; doCall/doBulkCall register a recovering deferred finish before invoking the loader and finish every record exactly once (loader panic included); the finish callback releases waiters once after the table computation; in Get/Refresh/BulkGet/bulk refresh a record obtained with shouldLoad is dispatched exactly once before any wait - exceptional exits included - and joined records are only waited on. One genuine defect (bulk refresh after a re-raised loader panic) is a known finding. Does not decide temporal non-overlap or termination under all interleavings.",
+    note=TB + "Assumes sync.WaitGroup semantics and that the executor runs submitted closures.",
+    ref="DESIGN.md §4 C08, §5 #12")
+CLAIMED["C10"] = dict(
+    technique="static analysis: " + PS + " (installer decision table, record invariants of the sibling loaders, guarded result assembly)",
+    text="Decides per path: installer decision table over (own record, not-found, error); not-found mark always accompanied by the not-found error and reset when another error overwrites it, volunteered keys registered before the error epilogue; results read from a record only after wait and under err == nil, hits inserted under the looked-up key, misses return (record.value, record.err); BulkGet dispatches at most once with only its own records and skips duplicates before the lookup. Does not decide exact result maps for arbitrary loader shapes beyond these guards.",
+    note=TB + "Loaders are opaque user functions.",
+    ref="DESIGN.md §4 C10, Appendix B4")
+CLAIMED["C11"] = dict(
+    technique="static analysis: " + PS + " (old value served, executor-only reload, not-fresh trigger, channel protocol), guard rules on reload argument selection",
+    text="Decides per path: hits return the cached value and never load inline; reload only on the not-fresh edge and only inside the cache's executor closure; Reload receives the old value, Load is used for absent keys; no channel / nothing scheduled without refresh, capacity-1 channel with exactly one result per manual (bulk) refresh on every non-panicking path, nothing sent for automatic refreshes; failed reload keeps entry and expiry, own not-found reload removes, own successful reload installs. Does not decide timing around the deadline or asynchronous executors.",
+    note=TB + "Known finding: bulk refresh after a re-raised loader panic (shared with C08).",
+    ref="DESIGN.md §4 C11")
